@@ -70,6 +70,12 @@ def cases(tier, seed):
                 for i in range(n):
                     for j in range(n):
                         out.append(dict(base, which="hess", i=i, j=j, mag="drop"))
+    # one Solver object solved several times: the check belongs to every solve (derivatives wrong only near the LATER start)
+    for ti, (vk, obj, rows) in enumerate(table(tier)):
+        n, m = len(vk), len(rows)
+        for si in (0, 1):
+            for (which, i, j) in [("grad", 0, jj) for jj in range(n)] + ([("jac", 0, 0)] if m else []) + [("hess", 0, 0)]:
+                out.append({"ti": ti, "x0i": 2, "x0i_first": 0, "si": si, "tier": tier, "which": which, "i": i, "j": j, "mag": 30.0, "second": True})
     # many columns (20+ internal variables incl. slacks): every gradient column, every Jacobian entry of the band, Hessian band
     for nn in ((30,) if tier == "quick" else (20, 30, 50)):
         spec = S.banded_qp(nn, "mixed", 0)
@@ -86,7 +92,7 @@ def cases(tier, seed):
     return out
 
 
-def make_corrupt(inner, which, i, j, delta):
+def make_corrupt(inner, which, i, j, delta, region=None):
     import scipy.sparse as sps
     from pygradflow.problem import Problem
 
@@ -102,9 +108,12 @@ def make_corrupt(inner, which, i, j, delta):
 
         def obj_grad(self, x):
             g = np.array(inner.obj_grad(x), dtype=float, copy=True)
-            if which == "grad":
+            if which == "grad" and self._on(x):
                 g[j] += delta
             return g
+
+        def _on(self, x):
+            return region is None or float(np.linalg.norm(np.asarray(x) - np.asarray(region[0]))) < region[1]
 
         def cons(self, x):
             return inner.cons(x)
@@ -119,11 +128,11 @@ def make_corrupt(inner, which, i, j, delta):
 
         def cons_jac(self, x):
             M = inner.cons_jac(x)
-            return self._add(M) if which == "jac" else M
+            return self._add(M) if which == "jac" and self._on(x) else M
 
         def lag_hess(self, x, y):
             M = inner.lag_hess(x, y)
-            return self._add(M) if which == "hess" else M
+            return self._add(M) if which == "hess" and self._on(x) else M
 
     return Corrupt()
 
@@ -240,6 +249,29 @@ def run_case(case):
         d_int = mag * (atol + rtol * abs(true) + fdm)
         d_int = d_int * (1.0 + rtol * abs(mag))  # rtol applies to the approximated value too
         delta_user = float(np.ldexp(d_int, -int(expo)))
+    if case.get("second"):
+        first = S.mk(n, obj, rows, vk, x0_idx=case["x0i_first"], tight=False)["x0"]
+        dist = float(np.linalg.norm(np.array(first) - np.array(spec["x0"])))
+        if dist < 0.1:
+            return {"outcome": "starts-coincide", "key": None, "violations": [], "stats": {"fd": worst}}
+        cp = make_corrupt(prob, which, i, j, delta_user, region=(spec["x0"], 0.25 * dist))
+        solver = RecSolver(cp, params)
+        rec1 = run_solve(cp, params, first, y0, solver=solver)
+        recs = [run_solve(cp, params, spec["x0"], y0, solver=solver) for _ in range(2)]
+        if rec1.exc is not None:
+            if rec1.exc["cls"] != "DerivError":
+                bad("second|first_solve|" + rec1.exc["cls"], rec1.exc["msg"])
+            return {"outcome": "first-start-out-of-class" if not viol else "violating", "key": None, "violations": viol, "stats": {"fd": worst}}
+        for k, rec in enumerate(recs):
+            if rec.exc is None:
+                bad(f"missed_on_later_solve|{which}", f"solve {k + 2} on one Solver object: error {d_int:.3e} at ({i},{j}) at its start not detected "
+                    f"(the first solve, from a start where the derivatives are right, passed the check); status {rec.result.status.name}")
+            elif rec.exc["cls"] != "DerivError":
+                bad(f"wrong_exception|{which}|{rec.exc['cls']}", rec.exc["msg"])
+            elif [int(r) for r in rec.exc_obj.invalid_indices] != [i] or int(rec.exc_obj.col_index) != j:
+                bad(f"misidentified|{which}", f"later solve reported rows {list(rec.exc_obj.invalid_indices)} col {rec.exc_obj.col_index}, expected row [{i}] col {j}")
+        return {"outcome": "wrong-detected-on-later-solve" if not viol else "violating",
+                "key": f"{spec['tag']}|second|{case['si']}|{which}|{i}|{j}", "violations": viol, "stats": {"fd": worst}}
     cp = make_corrupt(prob, which, i, j, delta_user)
     rec = run_solve(cp, params, spec["x0"], y0)
     if rec.exc is None:
